@@ -99,7 +99,7 @@ def script_events(t, modname='vtw.tests', nth=1):
     base = 'test_%s (%s.T_%s.test_%s)' % (mn, modname, t.get('shcls') or t['n'], mn)
     if 'strv' in t:
         base = t['strv']
-    if s in ('pass', 'xfail', 'leave_replaced', 'warnfilter', 'swap_pass', 'settrace', 'chdir', 'rmcwd'):
+    if s in ('pass', 'xfail', 'leave_replaced', 'warnfilter', 'swap_pass', 'settrace', 'chdir', 'rmcwd', 'close_out'):
         return []
     if s == 'sub_skip':
         return [('S', '%s (i=0)' % base)]
@@ -107,7 +107,7 @@ def script_events(t, modname='vtw.tests', nth=1):
         return [('F', '%s (i=0)' % base)]
     if s in ('skip_dec', 'skip_cls', 'skip_setup', 'skip_body'):
         return [('S', base)]
-    if s in ('fail', 'uxs', 'swap_fail', 'nested_fail'):
+    if s in ('fail', 'uxs', 'swap_fail', 'nested_fail', 'close_fail'):
         return [('F', base)]
     if s in ('error', 'setup_err', 'teardown_err', 'cleanup_err', 'sysexit'):
         return [('E', base)]
@@ -228,7 +228,10 @@ def layer_fault_choices(shape, maxf=1, rich=False):
                  ('setUp', 'Skip'), ('tearDown', 'Chain3'),
                  ('setUp', 'CauseCycle'), ('tearDown', 'ContextCycle'),
                  ('tearDown', 'SelfCause'), ('tearDown', 'CauseCycle'),
-                 ('setUp', 'ContextCycle')]
+                 ('setUp', 'ContextCycle'),
+                 # exceptions that cannot be put into a set / compared
+                 ('setUp', 'Unhashable'), ('tearDown', 'Unhashable'),
+                 ('setUp', 'EqRaises'), ('tearDown', 'UnhashableCause')]
     yield {}
     if maxf >= 1:
         for n in names:
